@@ -52,7 +52,8 @@ def recover_points(binary, sess, points, tag="img"):
     for i, p in enumerate(points):
         key = p.digest if p.digest != "perm" else "perm-%d" % i
         if key not in dirs:
-            d = os.path.join(imgroot, "p%05d" % i)
+            # every third image is recovered in a directory whose name contains glob metacharacters
+            d = os.path.join(imgroot, "p%05d%s" % (i, "[g]*?" if i % 3 == 0 else ""))
             crash.materialize(p.snap, root, d)
             dirs[key] = d
         order.append(key)
